@@ -52,12 +52,15 @@ static void run_static(Json& js, vh::Rng& rng, long budget) {
 static arr_real wild_signal(vh::Rng& rng, int n) {
     arr_real x(n);
     double level = 1;
+    int shape = 0, half = 1;   // 0 noise with outliers, 1 square wave (constant magnitude), 2 DC step
     for (int i = 0; i < n; ++i) {
         if (rng.range(0, 200) == 0) {
             const int k = (int)rng.range(0, 5);
             level = k == 0 ? 0.0 : k == 1 ? 10.0 : std::pow(10.0, -5 + 6 * rng.unif());
+            shape = (int)rng.range(0, 3) % 3, half = (int)rng.range(1, 40);
         }
-        x[i] = (rng.range(0, 30) == 0) ? level * 3 : level * rng.gauss();
+        x[i] = shape == 1 ? (((i / half) % 2) ? -level : level) : shape == 2 ? level
+               : (rng.range(0, 30) == 0) ? level * 3 : level * rng.gauss();
     }
     return x;
 }
@@ -73,22 +76,41 @@ static void run_range(Json& js, vh::Rng& rng, long budget, int n) {
         const char* nm = "";
         double thr_lin = 0;
         bool zero_attack = false;
+        // half of the runs stream the signal through in frames of random length (the bounds hold sample by sample, however the
+        // stream is cut)
+        const bool framed = rng.coin();
+        auto feed = [&](auto& p) {
+            if (!framed) {
+                auto r = p.process(x);
+                gain = r.gain, out = r.out;
+                return;
+            }
+            gain = arr_real(n), out = arr_real(n);
+            for (int pos = 0; pos < n;) {
+                const int fl = (int)std::min<long>(n - pos, rng.coin() ? rng.range(1, 16) : rng.range(1, 700));
+                auto r = p.process(arr_real(x.slice(pos, pos + fl)));
+                for (int i = 0; i < fl; ++i) {
+                    gain[pos + i] = r.gain[i], out[pos + i] = r.out[i];
+                }
+                pos += fl;
+            }
+        };
         if (which == 0) {
             Compressor p(fs, T, (int)rng.range(1, 50), W, at, rt);
-            auto r = p.process(x);
-            gain = r.gain, out = r.out, nm = "comp";
+            feed(p);
+            nm = "comp";
         } else if (which == 1) {
             Limiter p(fs, T, W, 0.0, rt);
-            auto r = p.process(x);
-            gain = r.gain, out = r.out, nm = "lim0", thr_lin = std::pow(10.0, T / 20.0), zero_attack = true;
+            feed(p);
+            nm = "lim0", thr_lin = std::pow(10.0, T / 20.0), zero_attack = true;
         } else if (which == 2) {
             Limiter p(fs, T, W, at, rt);
-            auto r = p.process(x);
-            gain = r.gain, out = r.out, nm = "lim";
+            feed(p);
+            nm = "lim";
         } else {
             NoiseGate p(fs, -140 + 140 * rng.unif(), at, rt, 4 * std::pow(rng.unif(), 6));
-            auto r = p.process(x);
-            gain = r.gain, out = r.out, nm = "gate";
+            feed(p);
+            nm = "gate";
         }
         bool glo = true, ghi = true, ceil_ok = true, outeq = true;
         for (int i = 0; i < n; ++i) {
